@@ -719,3 +719,268 @@ Proof.
     simpl part_src. rewrite E'. apply ws_uq_head; assumption. }
   rewrite Hw. apply run_fmt_strend; assumption.
 Qed.
+
+(** what the grammar hands to the builder *)
+Theorem arg_of_stmt kt a c :
+  arg_ok a = true -> is_term c = true ->
+  arg_of (kt :: arg_toks a ++ [term_tok c]) = Some (arg_text a).
+Proof.
+  intros Ha Hc. pose proof (arg_ok_parts a Ha) as (Hp & Hm & _).
+  unfold arg_of, arg_toks. rewrite <- app_comm_cons.
+  rewrite string_value_arg; auto.
+  - unfold arg_text. apply is_term_cases in Hc as [-> | ->]; reflexivity.
+  - apply is_term_cases in Hc as [-> | ->]; reflexivity.
+Qed.
+
+(** * the token ring delivers what was pushed, in order, as long as fewer than 64 tokens are pushed
+    by one call of the state function.  Proof: the ring operations commute with [map] (they never
+    look inside a token), so it is enough to run them on index lists, for every head position and
+    every length below 64 (4096 evaluations). *)
+Section RingMap.
+  Context {A B : Type} (f : A -> B).
+
+  Definition rmap (r : ring A) : ring B := mkRing (map f (rbuf r)) (rhead r) (rtail r).
+
+  Lemma set_nth_map i x l : map f (set_nth i x l) = set_nth i (f x) (map f l).
+  Proof. revert i. induction l as [|a l IH]; intros [|i]; simpl; auto. rewrite IH. reflexivity. Qed.
+
+  Lemma push_map r x : rmap (push r x) = push (rmap r) (f x).
+  Proof. unfold push, rmap. simpl. rewrite set_nth_map, map_length. reflexivity. Qed.
+
+  Lemma fold_push_map l : forall r, rmap (fold_left push l r) = fold_left push (map f l) (rmap r).
+  Proof. induction l as [|x l IH]; intros r; simpl; auto. rewrite IH, push_map. reflexivity. Qed.
+
+  Lemma nth_error_map' l n : nth_error (map f l) n = option_map f (nth_error l n).
+  Proof. revert n. induction l as [|a l IH]; intros [|n]; simpl; auto. Qed.
+
+  Lemma drain_map fuel : forall r,
+    drain fuel (rmap r) = option_map (fun lr => (map f (fst lr), rmap (snd lr))) (drain fuel r).
+  Proof.
+    induction fuel as [|fuel IH]; intros r; [reflexivity|].
+    cbn [drain]. change (rhead (rmap r)) with (rhead r). change (rtail (rmap r)) with (rtail r).
+    destruct (Nat.eqb (rhead r) (rtail r)); [reflexivity|].
+    change (rbuf (rmap r)) with (map f (rbuf r)). rewrite nth_error_map'.
+    destruct (nth_error (rbuf r) (rtail r)) as [x|]; [|reflexivity]. simpl option_map.
+    rewrite map_length.
+    specialize (IH (mkRing (rbuf r) (rhead r) (S (rtail r) mod length (rbuf r)))).
+    unfold rmap at 1 in IH. simpl in IH. rewrite IH.
+    destruct (drain fuel (mkRing (rbuf r) (rhead r) (S (rtail r) mod length (rbuf r)))) as [[l r']|]; reflexivity.
+  Qed.
+
+  Lemma deliver_map r l :
+    deliver (rmap r) (map f l) = option_map (fun lr => (map f (fst lr), rmap (snd lr))) (deliver r l).
+  Proof.
+    unfold deliver. rewrite <- fold_push_map. rewrite drain_map.
+    change (rbuf (rmap r)) with (map f (rbuf r)). rewrite map_length. reflexivity.
+  Qed.
+End RingMap.
+
+Fixpoint nat_list_eqb (a b : list nat) : bool :=
+  match a, b with
+  | [], [] => true
+  | x :: a', y :: b' => Nat.eqb x y && nat_list_eqb a' b'
+  | _, _ => false
+  end.
+Lemma nat_list_eqb_eq a b : nat_list_eqb a b = true -> a = b.
+Proof.
+  revert b. induction a as [|x a IH]; intros [|y b] H; try discriminate; auto.
+  simpl in H. apply andb_true_iff in H as [H1 H2]. apply Nat.eqb_eq in H1. f_equal; auto.
+Qed.
+
+(** the index ring the probes run on; its concrete value is hidden behind [ring_base_spec] so that no
+    later proof (nor the kernel, at Qed time) is tempted to unfold it *)
+Definition ring_base : list nat := seq 1000 ring_size.
+
+Definition ring_probe (p n : nat) : bool :=
+  match deliver (mkRing ring_base p p) (seq 0 n) with
+  | Some (l, r') =>
+    nat_list_eqb l (seq 0 n) && Nat.eqb (rhead r') ((p + n) mod ring_size)
+    && Nat.eqb (rtail r') (rhead r') && Nat.eqb (length (rbuf r')) ring_size
+  | None => false
+  end.
+
+Lemma ring_probe_all :
+  forallb (fun p => forallb (ring_probe p) (seq 0 ring_size)) (seq 0 ring_size) = true.
+Proof. vm_compute. reflexivity. Qed.
+
+Lemma ring_probe_true p n : p < ring_size -> n < ring_size -> ring_probe p n = true.
+Proof.
+  intros Hp Hn. pose proof ring_probe_all as H. rewrite forallb_forall in H.
+  specialize (H p (proj2 (in_seq _ _ _) (conj (Nat.le_0_l _) Hp))). rewrite forallb_forall in H.
+  exact (H n (proj2 (in_seq _ _ _) (conj (Nat.le_0_l _) Hn))).
+Qed.
+
+Lemma ring_probe_unfold p n : ring_probe p n = true ->
+  exists r', deliver (mkRing ring_base p p) (seq 0 n) = Some (seq 0 n, r')
+             /\ rhead r' = (p + n) mod ring_size /\ rtail r' = rhead r' /\ length (rbuf r') = ring_size.
+Proof.
+  unfold ring_probe. intros H.
+  destruct (deliver (mkRing ring_base p p) (seq 0 n)) as [[l r']|]; [|discriminate H].
+  apply andb_true_iff in H as [H H4]. apply andb_true_iff in H as [H H3]. apply andb_true_iff in H as [H1 H2].
+  apply nat_list_eqb_eq in H1. apply Nat.eqb_eq in H2, H3, H4. subst l.
+  exists r'. split; [reflexivity|]. split; [|split]; assumption.
+Qed.
+
+Lemma mod_ring_lt a : a mod ring_size < ring_size.
+Proof. apply Nat.mod_upper_bound. discriminate. Qed.
+
+Lemma ring_probe_spec p n : p < ring_size -> n < ring_size ->
+  exists r', deliver (mkRing ring_base p p) (seq 0 n) = Some (seq 0 n, r')
+             /\ rhead r' < ring_size /\ rtail r' = rhead r' /\ length (rbuf r') = ring_size.
+Proof.
+  intros Hp Hn. destruct (ring_probe_unfold p n (ring_probe_true p n Hp Hn)) as (r' & E & H2 & H3 & H4).
+  exists r'. split; [exact E|]. split; [|split; assumption].
+  rewrite H2. apply mod_ring_lt.
+Qed.
+
+Lemma ring_base_spec : length ring_base = ring_size /\ forall k, k < ring_size -> nth k ring_base 0 = 1000 + k.
+Proof. split; [apply seq_length|]. intros k Hk. apply seq_nth. exact Hk. Qed.
+
+Definition ring_wf {A} (r : ring A) : Prop :=
+  length (rbuf r) = ring_size /\ rhead r < ring_size /\ rtail r = rhead r.
+
+Lemma map_nth_seq {A} (d : A) (l : list A) : map (fun i => nth i l d) (seq 0 (length l)) = l.
+Proof.
+  induction l as [|a l IH]; [reflexivity|]. simpl. f_equal.
+  rewrite <- seq_shift, map_map. simpl. exact IH.
+Qed.
+
+Lemma deliver_transport {A} (g : nat -> A) base p n l r' :
+  deliver (mkRing base p p) (seq 0 n) = Some (l, r') ->
+  deliver (mkRing (map g base) p p) (map g (seq 0 n)) = Some (map g l, rmap g r').
+Proof.
+  intros E. change (mkRing (map g base) p p) with (rmap g (mkRing base p p)).
+  rewrite deliver_map, E. reflexivity.
+Qed.
+
+Lemma map_base_eq {A} (d : A) (base : list nat) (buf : list A) (g : nat -> A) n :
+  length base = n -> length buf = n ->
+  (forall k, k < n -> g (nth k base 0) = nth k buf d) -> map g base = buf.
+Proof.
+  revert base buf. induction n as [|n IH]; intros base buf Hb Hl H.
+  - destruct base; [|discriminate]. destruct buf; [reflexivity|discriminate].
+  - destruct base as [|x base]; [discriminate|]. destruct buf as [|y buf]; [discriminate|].
+    simpl. f_equal.
+    + apply (H 0). lia.
+    + apply IH; [simpl in Hb; lia | simpl in Hl; lia |]. intros k Hk. apply (H (S k)). lia.
+Qed.
+
+Theorem deliver_fifo {A} (d : A) (r : ring A) (toks : list A) :
+  ring_wf r -> length toks < ring_size ->
+  exists r', deliver r toks = Some (toks, r') /\ ring_wf r'.
+Proof.
+  intros (Hl & Hh & Ht) Hn. destruct r as [buf p t]. simpl in Hl, Hh, Ht. subst t.
+  pose (g := fun k => if Nat.ltb k 1000 then nth k toks d else nth (k - 1000) buf d).
+  destruct ring_base_spec as [Hbl Hbn].
+  assert (Eb : map g ring_base = buf).
+  { apply (map_base_eq d ring_base buf g ring_size Hbl Hl). intros k Hk. rewrite (Hbn k Hk). unfold g.
+    replace (Nat.ltb (1000 + k) 1000) with false by (symmetry; apply Nat.ltb_ge; lia).
+    f_equal. lia. }
+  assert (Et : map g (seq 0 (length toks)) = toks).
+  { transitivity (map (fun i => nth i toks d) (seq 0 (length toks))); [|apply map_nth_seq]. apply map_ext_in.
+    intros k Hk. apply in_seq in Hk. unfold g. replace (Nat.ltb k 1000) with true; [reflexivity|].
+    symmetry. apply Nat.ltb_lt. unfold ring_size in Hn. lia. }
+  destruct (ring_probe_spec p (length toks) Hh Hn) as (r' & E & H1 & H2 & H3).
+  apply (deliver_transport g) in E. rewrite Eb, Et in E.
+  exists (rmap g r'). split; [exact E|].
+  unfold ring_wf, rmap. cbn [rbuf rhead rtail]. rewrite map_length. auto.
+Qed.
+
+(** * the statement as the parser receives it *)
+Lemma length_arg_toks a : length (arg_toks a) = 2 * arg_parts a - 1.
+Proof.
+  unfold arg_toks, arg_parts. simpl. induction (a_more a) as [|m l IH]; [reflexivity|].
+  simpl. rewrite IH. simpl. lia.
+Qed.
+
+Theorem stmt_roundtrip k j0 a j1 c rest (rg : ring token) :
+  In k string_kws -> stmt_ok j0 a j1 = true -> is_term c = true ->
+  arg_parts a <= 31 -> ring_wf rg ->
+  exists toks rg',
+    lex_begin (kw_text k ++ render_junk j0 ++ arg_src a ++ render_junk j1 ++ c :: rest)
+      = Continue toks (accept_ws rest)
+    /\ deliver rg toks = Some (toks, rg') /\ ring_wf rg'
+    /\ arg_of toks = Some (arg_text a).
+Proof.
+  intros Hk Hok Hc Hn Hrg. unfold stmt_ok in Hok.
+  apply andb_true_iff in Hok as [Hok Haf]. apply andb_true_iff in Hok as [Hok Ha].
+  apply andb_true_iff in Hok as [Hok Hj1]. apply andb_true_iff in Hok as [Hne Hj0].
+  assert (Hne' : j0 <> []) by (destruct j0; [discriminate|discriminate]).
+  set (toks := (k, kw_text k) :: arg_toks a ++ [term_tok c]).
+  assert (Hlen : length toks < ring_size).
+  { unfold toks. cbn [length]. rewrite app_length, length_arg_toks. cbn [length]. unfold ring_size. lia. }
+  destruct (deliver_fifo (0, []) rg toks Hrg Hlen) as (rg' & Hd & Hwf).
+  exists toks, rg'. split; [|split; [exact Hd|split; [exact Hwf|]]].
+  - apply lex_begin_string_stmt; assumption.
+  - apply arg_of_stmt; assumption.
+Qed.
+
+(** * every text can be written, and [quote] writes it *)
+Lemma item_byte_canon b : item_byte (canon_item b) = b.
+Proof. unfold canon_item. destruct (esc_letter b); reflexivity. Qed.
+
+Lemma canon_not_nl b : is_lit_nl (canon_item b) = false.
+Proof.
+  unfold canon_item, esc_letter. beq_case b x0a; [reflexivity|].
+  destruct (Byte.eqb b x09), (Byte.eqb b x22), (Byte.eqb b x5c); simpl; try reflexivity; exact E.
+Qed.
+
+Lemma no_strip_no_nl l : (forall i, In i l -> is_lit_nl i = false) -> no_strip l = true.
+Proof.
+  induction l as [|a [|b l] IH]; intros H; try reflexivity.
+  change (no_strip (a :: b :: l)) with
+    (negb ((is_lit_blank a && is_lit_nl b) || (is_lit_nl a && is_lit_blank b)) && no_strip (b :: l)).
+  rewrite (H a) by (left; reflexivity). rewrite (H b) by (right; left; reflexivity).
+  rewrite andb_false_r. simpl. apply IH. intros i Hi. apply H. right. exact Hi.
+Qed.
+
+Lemma canon_item_ok b : Byte.eqb b x00 = false -> item_ok (canon_item b) = true.
+Proof.
+  intros Hn. unfold canon_item. destruct (esc_letter b) eqn:E; simpl; [rewrite E; reflexivity|].
+  unfold esc_letter in E.
+  destruct (Byte.eqb b x0a); [discriminate|]. destruct (Byte.eqb b x09); [discriminate|].
+  destruct (Byte.eqb b x22); [discriminate|]. destruct (Byte.eqb b x5c); [discriminate|].
+  rewrite Hn. reflexivity.
+Qed.
+
+Theorem quote_dq_total t :
+  forallb (fun b => negb (Byte.eqb b x00)) t = true -> quote StDq t = Some (quote_dq t).
+Proof.
+  intros H. unfold quote. replace (part_ok (quote_dq t)) with true; [reflexivity|].
+  symmetry. unfold quote_dq. simpl. apply andb_true_iff. split.
+  - rewrite forallb_forall. intros i Hi. apply in_map_iff in Hi as (b & <- & Hb).
+    apply canon_item_ok. rewrite forallb_forall in H. apply H in Hb. apply negb_true_iff in Hb. exact Hb.
+  - apply no_strip_no_nl. intros i Hi. apply in_map_iff in Hi as (b & <- & _). apply canon_not_nl.
+Qed.
+
+Theorem quote_sound sty t p : quote sty t = Some p -> part_ok p = true /\ part_text p = t.
+Proof.
+  unfold quote. intros H.
+  destruct sty; cbv zeta in H;
+    match type of H with (if ?c then _ else _) = _ => destruct c eqn:E end; try discriminate H;
+    inversion H; subst p; (split; [exact E|]); try reflexivity.
+  unfold quote_dq, part_text. rewrite map_map. rewrite <- (map_id t) at 2. apply map_ext. apply item_byte_canon.
+Qed.
+
+Lemma ring0_wf : ring_wf ring0.
+Proof.
+  unfold ring_wf, ring0. cbn [rbuf rhead rtail]. rewrite repeat_length. unfold ring_size.
+  split; [reflexivity|]. split; [lia|reflexivity].
+Qed.
+
+(** the task statement: a text written in one style after a keyword and a blank, closed by ';' *)
+Theorem quote_roundtrip sty t p k :
+  In k string_kws -> quote sty t = Some p ->
+  exists toks, lex_begin (kw_text k ++ [c_sp] ++ part_src p ++ [c_semi]) = Continue toks []
+               /\ arg_of toks = Some t.
+Proof.
+  intros Hk Hq. apply quote_sound in Hq as [Hp Ht].
+  assert (Hok : stmt_ok [JSp c_sp] (mkArg p []) [] = true).
+  { unfold stmt_ok, arg_ok. simpl. rewrite Hp. destruct p; reflexivity. }
+  destruct (stmt_roundtrip k [JSp c_sp] (mkArg p []) [] c_semi [] ring0 Hk Hok eq_refl) as (toks & rg' & H1 & _ & _ & H4).
+  - unfold arg_parts. cbn [a_more length]. lia.
+  - exact ring0_wf.
+  - exists toks. split.
+    + unfold arg_src in H1. simpl in H1. rewrite app_nil_r in H1. simpl. exact H1.
+    + rewrite H4. unfold arg_text. simpl. rewrite app_nil_r. f_equal. exact Ht.
+Qed.
